@@ -19,7 +19,7 @@ ASSUMPTIONS = [
     "the transaction side (no leftover transaction or timer) is the class invariant of the segmentation state machines, see C04; the return path of a routed request is C06's learned-path clause",
 ]
 NOT_DECIDED = [
-    "garbage at the link layer (BVLL / UDP) and the asyncore loop's own error handling; interleavings with valid traffic are covered only through the per-call contracts (each call leaves the invariants intact)",
+    "garbage at the UDP / asyncore level and the loop's own error handling (what the BVLL codec does with an arbitrary datagram -- one decoded message or a refusal, nothing else -- is the lemma C09.codec_receives_any_datagram; an exception escaping a deferred call is contained by the drain loop, C14); interleavings with valid traffic are covered only through the per-call contracts (each call leaves the invariants intact)",
 ]
 EXPLANATION = ("ApplicationServiceAccessPoint.indication: a confirmed request of an unknown service is answered with exactly one reject (unrecognized service), one whose parameters "
                "the decoder rejects / aborts with exactly one reject / abort carrying that reason, a decoded one reaches the application exactly once and a reject / abort raised "
